@@ -35,7 +35,7 @@ def run(chk: core.Check, tier: str, seed: int) -> None:
     jp = core.import_repo()
     rng = random.Random(seed)
     n = 12000 if tier == "quick" else 250000
-    cands = list(dict.fromkeys(corpus.SEEDS + EXTRA + corpus.repo_test_queries() + corpus.literal_queries() + corpus.valid_candidates(rng, n)))
+    cands = list(dict.fromkeys(corpus.SEEDS + EXTRA + corpus.repo_test_queries() + corpus.literal_queries() + corpus.skeletons(rng) + corpus.valid_candidates(rng, n)))
     common.t1_check(chk, [t for t in (corpus.SEEDS + EXTRA + rng.sample(cands, 500 if tier == "quick" else 15000)) if len(t) <= 60], "c03_t1")
     recs = [impl.rec_compile(jp, q) for q in cands]
     for r in recs:
